@@ -20,7 +20,7 @@ CLAIMS = {
  "C06": ("proof", "5/C06", "Goal predicate proved for the search loop of all_sensitive_hosts_compromised; done/limit/counter are postconditions and frames of generative_step, step, reset, goal_reached."),
  "C07": ("proof", "5/C07", "success <=> draw < prob, at most one draw, exact error flags and no-draw cases are postconditions of Network.perform_action with the draw a symbolic real in [0,1)."),
  "C08": ("proof", "5/C08", "obs[r][c] = state[r][c] if Entitled(action, result, r, c) else 0 (truthful, minimal and complete are the three directions of this one equality) is a postcondition of State.get_observation for every action kind, with the subnet-scan loop under an invariant; HostVector.observe's ten switches are proved cell-exact; auxiliary row and initial observation likewise."),
- "C09": ("proof", "5/C09", "Layout constants, name->index maps, the vectorized row of every host, the initial tensor and the observation shape are postconditions of _update_vector_idxs, _initialize, vectorize, tensorize, generate_initial_state, get_state_dims/get_observation_dims (loop invariants for all enumerate loops). NOT covered: from_numpy/get_readable round trips and NumPy's flatten/reshape (assumed row-major)."),
+ "C09": ("proof", "5/C09", "Layout constants, name->index maps, the vectorized row of every host, the initial tensor and the observation shape are postconditions of _update_vector_idxs, _initialize, vectorize, tensorize, generate_initial_state, get_state_dims/get_observation_dims (loop invariants for all enumerate loops). Round trips through Observation.from_numpy / State.from_numpy / numpy() / numpy_flat() are proved modulo the assumed NumPy contract (flatten is row-major and fresh, reshape inverts it). NOT covered: the readable decoders (get_readable)."),
  "C10": ("proof", "5/C10", "Space bounds cover every value (min/max loop invariants + in-box lemma), observation-space shape equals the observation's and the scenario's dims (NASimEnv.__init__), every member of either action space decodes without error (python ints, NumPy integer scalars, lists, tuples), reset/step tuple shapes. NOT covered: integer ndarrays as parameter vectors, Gymnasium's own contains()."),
  "C11": ("other", "5/C11", "Proved unbounded: parameterised decode (incl. wrap-around, undefined pairs -> zero-cost no-op), nvec, advertised size, flat index->action, action mask (loop invariant). BOUNDED only (concrete-structured scenarios, real loops executed symbolically): load_action_list enumeration and exploit_map/privesc_map first-definition-wins, because the unbounded engine has no symbolic list-append / nested symbolic dict."),
  "C12": ("proof", "5/C12", "Non-interference: the dynamics outputs of generative_step/step are proved equal to themselves with the three mode flags renamed (solver-discharged reads-frame), info is the action result, observation construction is proved read-only, and parameterised decoding yields the scenario's definitions (same records as the flat list)."),
